@@ -99,11 +99,13 @@ class KroneckerProductAddedDiagLinearOperator(AddedDiagLinearOperator):
                 # as D is assumed to have constant components, we can look solely at the diag_values
                 diag_term = self.diag_tensor._diagonal().clamp(min=1e-7).log().sum(dim=-1)
                 # symeig requires computing the eigenvectors for it to be differentiable
-                evals, _ = self.linear_op._symeig(eigenvectors=True)
-                const_times_evals = KroneckerProductLinearOperator(
-                    *[ee * d.diag_values for ee, d in zip(evals.linear_ops, self.diag_tensor.linear_ops)]
+                scaled_evals = KroneckerProductDiagLinearOperator(
+                    *[
+                        DiagLinearOperator(k._symeig(eigenvectors=True)[0] / d.diag_values)
+                        for k, d in zip(self.linear_op.linear_ops, self.diag_tensor.linear_ops)
+                    ]
                 )
-                first_term = (const_times_evals._diagonal() + 1).log().sum(dim=-1)
+                first_term = (scaled_evals._diagonal() + 1).log().sum(dim=-1)
                 return diag_term + first_term
 
             else:
